@@ -46,7 +46,8 @@ def filter_case(rec, seedt):
     alpha = float(rng.choice([0.01, 0.5, 1.0, 1.5, 2.0, rng.uniform(0.01, 2.0)]))
     fs = gen.loguniform(rng, 0.1, 1e4)
     fmax = fs / 2 * float(rng.choice([1.0, 1.0, 0.5, rng.uniform(0.01, 1.0)]))
-    ratio = gen.loguniform(rng, 4, 1e6)
+    ratio = gen.loguniform(rng, 4, 1e6) if rng.random() < 0.85 else \
+        float(rng.choice([1.05, 1.3, 1.6, 1.7, 2.0, 3.0]))     # narrow bands: one to three sections
     fmin = fmax / ratio
     pink = bool(rng.random() < 0.15)
     prev = getattr(filter_case, "prev", None)
